@@ -351,6 +351,7 @@ func optionSliceNotRetained(o *Out) {
 
 func fragOpts(g *Gen, n int, o *Out) {
 	optionSliceNotRetained(o)
+	optsGovernLookups(g, o, n)
 	for i := 0; i < n; i++ {
 		datum, root, paths := datumAndPaths(g, "bexpr")
 		// include hook-relevant data sometimes
